@@ -486,10 +486,10 @@ fn generate_root_definitions(
         // We will clean up the number of namespace nodes at the end
         let mut current_namespace = namespace;
         while let Some(namespace_id) = current_namespace {
+            // Use the generated name so the definition matches the qualified names that refer into it
             let name = context
-                .module
-                .namespace_registry
-                .get_namespace_name(namespace_id);
+                .name_map
+                .get_name_leaf(NameSymbol::Namespace(namespace_id));
 
             defs = Vec::from([ast::RootDefinition::Namespace(
                 Located::none(name.to_string()),
